@@ -110,6 +110,15 @@ CHECKS["C15"] = dict(
     note="Bounded runs (K<=2 outer, 1 inner evaluation quick); scripted optimizer back-end; 2 handlers per plan and 2 observers.",
     design="4 (C15)")
 
+CHECKS["C14"] = dict(
+    text="OptStep.tla: budget check / evaluation / judgement as actions; TLC checks budget respected, TOO_FEW iff a delivered "
+         "evaluation failed, failing results delivered, documented exits, for every request pattern x failing index x failure class "
+         "(threshold, emptied filter of each of the four kinds, stddev estimator, perturbations, all-NaN with min_success 0, raising "
+         "evaluator) x max_functions x step kind x NaN tolerance x transforms; every scenario runs on a real plan, the recorded "
+         "evaluations and exit are replayed against the model (Trace_C14). The abort/exit-code interplay is covered by the C15 model.",
+    note="Scripted back-end; bounded run length (K<=2 quick, <=4 thorough); parallel batches covered by seeded-change experiments only.",
+    design="4 (C14)")
+
 NOT_APPLICABLE = {}
 
 def main():
